@@ -113,6 +113,24 @@ func c15min(a, b int) int {
 	return b
 }
 
+// c15FrameFails is the oracle of c15FrameCheck without any recording (used to minimise).
+func c15FrameFails(dir string, n int) bool {
+	add, remove, _, _ := c15FrameFns(dir)
+	p := c15h.Expand(1, n)
+	failed := false
+	if pan, _ := c15h.Catch(func() {
+		fr, err := add(p)
+		if err != nil {
+			return
+		}
+		out, derr := remove(fr)
+		failed = derr != nil || !bytes.Equal(out, p)
+	}); pan {
+		return true
+	}
+	return failed
+}
+
 var c15FrameRequired = []string{"request:ok@limit", "response:ok@limit", "request:ok@0", "response:ok@0", "request:beyond-limit", "response:beyond-limit"}
 
 // Every length in windows around the representation limits (and, in the thorough tier, every length
@@ -160,6 +178,10 @@ func TestVerif_C15_framing_enum(t *testing.T) {
 			if soft.Failed {
 				seen[dir], soft.Failed = true, false
 				defer t.Fail()
+				// report the smallest failing length of this run (same result in every shard)
+				d := dir
+				m := c15h.ShrinkLen(l, func(n int) bool { return c15FrameFails(d, n) })
+				c15FrameCheck(soft, rec, c15FrameCase{Dir: dir, Len: m, Seed: 1})
 			}
 		}
 	}
